@@ -1,6 +1,7 @@
 """C14 -- occlusion/mismatch filling touches only flagged pixels, fills from valid ones.
 
-T-gen : Gen/ValConst.v (pandora/constants.py) re-checked equal to the model's constants.
+T-gen : Gen/ValConst.v (pandora/constants.py) re-checked equal to the model's constants; Gen/Callbacks.v
+        (ast of PandoraMachine.validation_run) re-checked equal to the call structure of validation_interp_run.
 T-corr: Model/Interp.v (extracted, fid 1) against the real
         validation.AbstractInterpolation(interpolated_disparity=m).interpolated_disparity(ds)
         (compiled numba kernels, public entry point), exact comparison of the disparity map
@@ -19,7 +20,7 @@ import xarray as xr
 
 from harness import core
 
-GEN = ["gen_valconst"]
+GEN = ["gen_valconst", "gen_callbacks"]
 EXTRACT_FILES = ["X14"]
 DRIVERS = ["x14"]
 RULE = ("a case = a disparity map (1..7 x 1..9, values k/4, invalid_disparity -9999 or NaN) + a validity mask laid "
@@ -36,7 +37,8 @@ ASSUMES = [
     "in the source: out_disp[col,row]/out_val[col,row] vs disp/valid) -- the model is the per-pixel function",
     "valid pixels hold finite disparities (NaN only on invalid pixels) for the value-range theorems",
 ]
-TRUSTED = ["Gen/ValConst.v produced by translator/gen_valconst.py from the imported pandora.constants"]
+TRUSTED = ["Gen/ValConst.v produced by translator/gen_valconst.py from the imported pandora.constants",
+           "Gen/Callbacks.v produced by translator/gen_callbacks.py from the ast of state_machine.py"]
 
 INV = 0b01111000011
 OCC, MIS, FOCC, FMIS = 256, 512, 16, 32
@@ -364,7 +366,10 @@ def run(ctx):
                             "disp_after": [[None if v is None else float(v) for v in row] for row in d1],
                             "mask_after": m1}, limit=6)
         ctx.case(digest)
-    ctx.gen_obligations = ["Gen.ValConst constants = Model constants (reflexivity on the regenerated file)"]
+    ctx.gen_obligations = ["Gen.ValConst constants = Model constants (C14_constants_match, reflexivity on the "
+                           "regenerated file)",
+                           "Gen.Callbacks validation_run call structure = the one validation_interp_run models "
+                           "(C14_validation_run_calls, reflexivity on the regenerated file)"]
     ctx.stats["spec_clauses_checked_on_impl"] = [
         "pixels without bit 8/9 keep disparity and mask", "flag swap 8->4 / 9->5 / sgm 9->8->4, or pixel untouched",
         "filled value finite and within [min,max] of the valid disparities", "filled => a valid pixel in sight along "
